@@ -107,6 +107,7 @@ type Interp struct {
 	killed  bool
 	abort   interface{}
 	explore bool // schedule exploration on
+	mapOrders bool // iteration order of small maps is a decision
 	preemptions, preemptionBound int
 	nextChanID int
 
